@@ -249,7 +249,11 @@ class Counter(HashTable):
                The set of integers to count
         """
         t = time.time()
-        keys = np.asanyarray(keys, dtype=self._key_dtype)
+        samples = np.asanyarray(keys)
+        keys = np.asanyarray(samples, dtype=self._key_dtype)
+        if keys.dtype != samples.dtype:
+            # samples that do not survive the cast to the key dtype cannot be keys
+            keys = keys[keys == samples]
         hashes = self._get_hash(keys)
         view = self._keys._shape.view(hashes)
         mask = np.flatnonzero(view.lengths)
